@@ -144,6 +144,19 @@ def handle (st : St) (fam : String) (rhs : String) : P Out := do
     let u ← int; let ns ← int
     let m := DateTime.fromTimespec u ns st.zone
     pure { model := showTz showDt m, oracles := Spec.dtOracles rhsToks ++ Spec.dtfromOracles st.zone u ns rhsToks }
+  | "project" =>
+    let (y, mo, d, h, mi, s, ns) ← fields7
+    let l ← ltt
+    let m := match DateTime.new y mo d h mi s ns l with
+      | .ok x => x.project st.zone
+      | .error e => .error e
+    pure { model := showTz showDt m, oracles := Spec.dtOracles rhsToks ++ Spec.projectOracles st.zone y mo d h mi s ns l.utOffset rhsToks }
+  | "utcproject" =>
+    let (y, mo, d, h, mi, s, ns) ← fields7
+    let m := match UtcDateTime.new y mo d h mi s ns with
+      | .ok x => x.project st.zone
+      | .error e => .error e
+    pure { model := showTz showDt m, oracles := Spec.dtOracles rhsToks ++ Spec.projectOracles st.zone y mo d h mi s ns 0 rhsToks }
   | "dtfromtn" =>
     let n ← int
     let m := DateTime.fromTotalNanoseconds n st.zone
